@@ -126,7 +126,14 @@ def rule_status(ck):
                             if isinstance(a_, ast.Name):
                                 env[a_.id] = b_
             sts = [const_value(env[n_]) for n_ in st_names if n_ in env]
-            qs = [u(substitute(q_, env)) for q_ in q_exprs]
+            def _named(q_):
+                # `quantile = (delta_1, delta_2)` bound once after the branch and handed on by name
+                if isinstance(q_, ast.Name):
+                    defs_ = [a_ for a_ in find_assignments(f, q_.id) if isinstance(a_, ast.Assign)]
+                    if len(defs_) == 1 and q_.id not in env:
+                        return defs_[0].value
+                return q_
+            qs = [u(substitute(_named(q_), env)) for q_ in q_exprs]
             ok = bool(st_names) and sts == ['not-valid'] * len(st_names) and bool(qs) and all(q_ == '(-1, -1)' for q_ in qs)
         (o.ok("quantile only when n_obs > 0 and the statistic is a number; otherwise 'not-valid' with (-1, -1)") if ok else
          o.fail("the quantile of %s is not control-dependent on `n_obs == 0 or isnan(statistic)` with a 'not-valid' / (-1, -1) alternative" % name))
@@ -356,6 +363,16 @@ def rule_formulas(ck):
         args = [u(a) for a in c.args]
         tg = u(st.targets[0]) if isinstance(st, ast.Assign) else ''
         probs = []
+        # a plain copy of the name (`test_distribution_spatial_1d = test_distribution_1d`) is the same array
+        same = {dist}
+        for a_ in all_nodes(f):
+            if isinstance(a_, ast.Assign) and len(a_.targets) == 1 and isinstance(a_.targets[0], ast.Name) and isinstance(a_.value, ast.Name):
+                if a_.targets[0].id == dist and len(find_assignments(f, dist)) == 1:
+                    same.add(a_.value.id)
+                elif a_.value.id == dist and len(find_assignments(f, a_.targets[0].id)) == 1:
+                    same.add(a_.targets[0].id)
+        if len(args) == 2 and args[0] in same and args[1] == obs:
+            args = [dist, obs]
         if args != [dist, obs]:
             probs.append('get_quantiles(%s) - expected (simulated distribution %s, observed statistic %s)' % (', '.join(args), dist, obs))
         if tg != '(delta_1, delta_2)':
